@@ -1,7 +1,7 @@
 /-
 C05 at scheduler level (id C05S) — internal queue limits are never exceeded; FIFO release skipping held tasks.
-Statements only, over the `Sched3Q` model (scheduler core + limited queues); proofs by reference to
-`Sched3QLemmas`.  `act s members` = number of pooled proxies with a name in `members` that are preparing /
+Statements only, over the `Sched3QT` model (scheduler core + limited queues + manual trigger of pooled group-start
+tasks); proofs by reference to `Sched3QTLemmas`.  `act s members` = number of pooled proxies with a name in `members` that are preparing /
 submitted / running / waiting on job preparation (`TaskPool.count_active_tasks`).
 
 Reading of the property text:
@@ -10,15 +10,18 @@ Reading of the property text:
   satisfies the run invariants `queue_invariants_run`) and, along runs, `Inv_queue_partial`;
 * "released in the order they were queued, skipping held ones": `release_fifo`, `queue_release_fifo`,
   `held_never_released`;
-* "only manual triggering may exceed a limit": there is no manual trigger in this model.  The unrestricted run
-  statement `Inv_queue_full` is nevertheless FALSE in the model (and in the code, which the model follows): a job
+* "only manual triggering may exceed a limit": `trigger_respects_limit` - a manual trigger of a task that is NOT
+  queued starts it only if its queue has room, else it is queued (a trigger of a task that IS queued takes it out of
+  the queue and runs it regardless: the one legitimate way over a limit).  The unrestricted run
+  statement `Inv_queue_full` is FALSE in the model (and in the code, which the model follows): a job
   message can move a waiting task straight to `running` without passing its queue (`Inv_queue_counterexample`);
   what is proved is `Inv_queue_partial`: if every activation along the run is a queue release (`NoOobFrom`,
-  a property of the trace that the judge also evaluates on the real traces), no limit is ever exceeded.
+  a property of the trace that the judge also evaluates on the real traces; it excludes manual triggers that start a
+  task), no limit is ever exceeded.
 -/
-import CylcModel.Sched3QLemmas
+import CylcModel.Sched3QTLemmas
 namespace CylcModel.C05S
-open CylcModel.Sched3Q
+open CylcModel.Sched3QT
 
 /-! ### FIFO, held tasks skipped and left in place -/
 
@@ -160,7 +163,46 @@ theorem Inv_queue_counterexample : ¬ Inv_queue_full := by
   revert this
   decide
 
+/-! ### Manual trigger -/
+
+/-- **a manual trigger respects the limit** (`TaskPool.queue_or_trigger`, any state satisfying the run invariants):
+after triggering a pooled proxy that is not queued, every queue with limit `L > 0` has at most
+`max L (what it had before)` active members - the proxy starts (waits on job preparation) only if its queue has
+room, counting the proxies the same command has started before it; otherwise it is queued. -/
+theorem trigger_respects_limit {g : Graph} {s : State} (h : KeepQ g s) {x : Proxy} (hx : x ∈ s.pool)
+    (hq : x.queued = false) (q : LQ) (hqm : q ∈ s.qs) (hl : 0 < q.limit) :
+    act (queueOrTrigger s x) q.members ≤ max q.limit (act s q.members) :=
+  queueOrTrigger_limit h hx hq q hqm hl
+
+/-- the trigger command keeps the run invariants, launches nothing itself, and only appends to / deletes from the
+deques (`queue_invariants_run`, `launch_only_in_main_loop` and `queue_order_step` cover the `trigger` op as well);
+stated here for the command on its own -/
+theorem trigger_keeps_invariants {g : Graph} {s : State} (h : KeepQ g s) (ids : List Key) :
+    KeepQ g (triggerTasks g s ids) ∧ (triggerTasks g s ids).launched = s.launched ∧
+      QStep s.qs (triggerTasks g s ids).qs := by
+  have := keep_triggerTasks g s ids (keep_of_keepQ h)
+  exact ⟨keepQ_of_keep this, keep_launched this, keep_qstep this⟩
+
 /-! ### non-vacuity -/
+
+-- `trigger_respects_limit`: `1/a` is preparing (queue of limit 1 full), `1/b` pooled and not queued: a trigger
+-- queues it instead of starting it
+def trigState : State :=
+  let s1 := step exGraph (init exGraph) .loop
+  { s1 with pool := s1.pool.map (fun x => if x.name == "b" then { x with queued := false } else x),
+            qs := s1.qs.map fun q => { q with deque := [] } }
+
+example : KeepQ exGraph trigState := by
+  refine ⟨by unfold NoDup keys; decide, by decide, by decide⟩
+
+example : (trigState.pool.filter (·.name == "b")).map (fun x => (x.queued, x.wjp)) = [(false, false)] := by decide
+
+example : ((trigState.pool.filter (·.name == "b")).map fun x =>
+      (queueOrTrigger trigState x).pool.map (fun y => (y.name, y.status, y.queued, y.wjp))) =
+      [[("a", .preparing, false, false), ("b", .waiting, true, false)]] := by decide
+
+example : ((trigState.pool.filter (·.name == "b")).map fun x =>
+      (queueOrTrigger trigState x).qs.map (·.deque)) = [[[(1, "b")]]] := by decide
 
 -- the hypotheses of `release_limit` / `release_and_prepare_limit` are met by the start-up state of `exGraph`,
 -- whose limited queue holds two ready tasks: exactly one is released
